@@ -22,11 +22,14 @@ var defaultWeights = map[string]int{
 	"new": 4, "newBatch": 2, "copy": 1, "add": 4, "remove": 3, "exchange": 2, "set": 1, "write": 1, "setRel": 2, "removeEntity": 3,
 	"addBatch": 1, "removeBatch": 1, "exchangeBatch": 1, "setRelBatch": 1, "removeEntities": 1,
 	"filterNew": 2, "filterReg": 1, "query": 2, "shrink": 1, "reset": 1, "stats": 1, "read": 1, "scenario": 1, "register": 1,
-	"batchCall": 1, "dump": 1, "loadSaved": 1, "obsNew": 2, "obsReg": 1, "emit": 1, "res": 1, "qOpen": 1, "qNext": 2, "qClose": 2,
+	"batchCall": 1, "dump": 1, "loadSaved": 1, "dumpLoad": 1, "obsNew": 2, "obsReg": 1, "emit": 1, "res": 1, "qOpen": 1, "qNext": 2, "qClose": 2,
 }
 
 func applyDefaults() {
 	for id, pd := range Props {
+		if pd.Profile.Bulk == 0 {
+			pd.Profile.Bulk = 4 // every profile: a few percent of the cases run on a world with hundreds of archetypes
+		}
 		if id == "C20" || id == "C12" {
 			// traces are compared across processes/builds: keep these profiles as defined
 			pd.Opt.Events = true
@@ -36,6 +39,10 @@ func applyDefaults() {
 			if _, ok := pd.Profile.W[k]; !ok {
 				pd.Profile.W[k] = v
 			}
+		}
+		if !pd.Profile.Misuse {
+			pd.Profile.Misuse = true
+			pd.Profile.W["misuse"] = 1
 		}
 		if !pd.Profile.OpenQ {
 			pd.Profile.OpenQ = true
@@ -160,7 +167,7 @@ func init() {
 	}
 	Props["C09"] = &PropDef{
 		ID:       "C09",
-		Profile:  &Profile{Name: "inspect", W: with(obsW, "obsNew", 12, "obsReg", 10, "addBatch", 5, "removeBatch", 5, "exchangeBatch", 4, "setRelBatch", 5, "removeEntities", 5, "newBatch", 6, "filterNew", 5), MaxEnts: 20, MinOps: 10, MaxOps: 80, RelBias: 40, ObsPrefix: 4},
+		Profile:  &Profile{Name: "inspect", W: with(obsW, "dumpLoad", 6, "obsNew", 12, "obsReg", 10, "addBatch", 5, "removeBatch", 5, "exchangeBatch", 4, "setRelBatch", 5, "removeEntities", 5, "newBatch", 6, "filterNew", 5), MaxEnts: 20, MinOps: 10, MaxOps: 80, RelBias: 40, ObsPrefix: 4},
 		Policies: []Policy{{}},
 		Opt:      Options{DeepEvery: 20, Events: true, Inspect: true},
 		Rule: genNote + "as C08, and every observer callback inspects the world: reported entity alive and affected, every entity of the expected state appears exactly once in a Filter0 query, " +
